@@ -231,7 +231,7 @@ type verifC05Serialiser struct {
 
 // verifC05Role says where an expression occurrence stands, i.e. how it is described.
 type verifC05Role struct {
-	kind   byte    // 0 pure value, 'l' LHS of an assignment, 'y' yielded status, 'x' not covered
+	kind   byte      // 0 pure value, 'l' LHS of an assignment, 'y' yielded status, 'x' not covered
 	assign *a.Assign // 'l', and a pure RHS of an op-assignment to a local
 }
 
